@@ -74,15 +74,43 @@ impl Default for Exec {
     }
 }
 
+thread_local! {
+    /// Every executor created on this (run) thread: tasks that hold a clone
+    /// of their executor (peers that accept connections and spawn handlers)
+    /// and never finish would keep it - and everything they own - alive for
+    /// ever. The runner drops all task futures when the run is over.
+    static ALL: RefCell<Vec<std::rc::Weak<RefCell<Inner>>>> = const { RefCell::new(Vec::new()) };
+}
+
+/// Drop the futures of all tasks of all executors of this thread.
+pub fn shutdown_all() {
+    let execs: Vec<std::rc::Weak<RefCell<Inner>>> = ALL.with(|a| std::mem::take(&mut *a.borrow_mut()));
+    for w in execs {
+        if let Some(inner) = w.upgrade() {
+            // Take the futures out first: dropping one may touch the executor.
+            let futs: Vec<LocalFut> = {
+                let mut g = inner.borrow_mut();
+                g.tasks.iter_mut().filter_map(|t| {
+                    t.done = true;
+                    t.fut.take()
+                }).collect()
+            };
+            drop(futs);
+        }
+    }
+}
+
 impl Exec {
     pub fn new() -> Self {
-        Exec {
+        let e = Exec {
             inner: Rc::new(RefCell::new(Inner {
                 tasks: Vec::new(),
                 root: Arc::new(Mutex::new(None)),
                 polls: 0,
             })),
-        }
+        };
+        ALL.with(|a| a.borrow_mut().push(Rc::downgrade(&e.inner)));
+        e
     }
 
     pub fn spawn<T: 'static>(&self, name: impl Into<String>, fut: impl Future<Output = T> + 'static) -> JoinHandle<T> {
